@@ -31,12 +31,16 @@ def gen_cases(tier, seed):
 
 
 def splits(k, T):
-    """all n in N^T with sum (i+1) n_i = k (plain nested enumeration, independent of the library)."""
+    """all n in N^T with sum (i+1) n_i = k (own enumeration: highest topology first, the first column takes the rest)."""
     out = []
-    ranges = [range(0, k // (i + 1) + 1) for i in range(T)]
-    for n in product(*ranges):
-        if sum((i + 1) * x for i, x in enumerate(n)) == k:
-            out.append(n)
+
+    def rec(i, rest, tail):
+        if i == 0:
+            out.append((rest,) + tail)
+            return
+        for c in range(0, rest // (i + 1) + 1):
+            rec(i - 1, rest - c * (i + 1), (c,) + tail)
+    rec(T - 1, k, ())
     return out
 
 
@@ -58,8 +62,12 @@ def build_config(rng):
         probs = [x / s for x in w]
     lo = rng.choice([0, 1, 1, 2, 3])
     width = rng.randint(1, 12)
+    if T <= 2 and rng.random() < 0.06:
+        lo, width = rng.choice([1, 200, 250]), rng.randint(40, 90)      # overall degrees beyond 255
     hi = lo + width
     fkind = rng.choice(["table", "table", "table_zero", "power_law", "poisson", "exponential", "cutoff"])
+    if lo + width > 100:
+        fkind = rng.choice(["table", "power_law"])
     if lo == 0 and fkind in ("power_law", "cutoff"):
         fkind = "poisson"
     if fkind.startswith("table"):
